@@ -40,7 +40,8 @@ def parseEvent (l : Line) : Option FlowObs.Event :=
     if str l "obs" == "login" then
       let ch : Option CodeChallenge := if has l "chal.m" then some { Challenge := str l "chal.c", Method := str l "chal.m" } else none
       some (.accepted { id := str l "o.id", clientID := str l "client", redirectURI := str l "redirect", scopes := list l "scopes",
-                        nonce := str l "nonce", state := str l "state", challenge := ch })
+                        nonce := str l "nonce", state := str l "state", challenge := ch,
+                        subject := str l "o.presub" })
     else none
   | "login" => some (.login (str l "id") (str l "sub") (int l "authtime"))
   | "callback" => if str l "obs" == "code" then some (.code (str l "id") (str l "o.code")) else none
